@@ -775,7 +775,7 @@ class Solver:
                     connections=connections,
                     pin_mapping=mapping,
                     param_mapping=self.param_mapping,
-                    param_dic=self.param_dic,
+                    param_dic=copy(self.default_params),
                 )
             )
         return solvers
